@@ -419,7 +419,8 @@ EmptyStore == [gch |-> <<>>, hs |-> [h \in Holes |-> NoHole], attrs |-> <<>>, ak
                \* the group's plain (non-concatenated) child, a comment: "none" (scene without one), "live", "gone",
                \* as built also "detached" (gone from group.children, still linked in the file) and "dangling"
                \* (flat node deleted, link under Groups/<uid>/Data left behind)
-               plain |-> IF "RemovePlainChild" \in Acts THEN "live" ELSE "none"]
+               plain |-> IF "RemovePlainChild" \in Acts THEN "live" ELSE "none",
+               grp |-> "live"]        \* "removed" after workspace.remove_entity(group)
 NoTgt == [holes |-> {}, names |-> {}]
 Init == s = EmptyStore /\ last = [act |-> "Init", args |-> [x |-> 0], out |-> "ok", dev |-> {}, tgt |-> NoTgt]
 
@@ -773,6 +774,17 @@ ReopenRemoveGroup ==
          IN Done(RemovePgCore(R, h, pg.id), "ReopenRemoveGroup", [h |-> h, pg |-> pgname, via |-> via], "ok", {},
                  [holes |-> {h}, names |-> names])
 
+\* workspace.remove_entity(drillhole_group) (workspace.py remove_entity -> remove_recursively): the group, its holes, their
+\* data and its plain child are gone from memory and from the file - no node under Groups/, no flat node of the plain child
+\* under Data/, the file is well-formed (harness/h5snap.wellformed) while open and after close, and the group is not
+\* there after re-open.  The behaviour ends here.
+RemoveGroup ==
+    /\ s.grp = "live" /\ ~Corrupt(s)
+    /\ \A x \in LiveHoles(s) : ~Unclean(s, x)
+    /\ s.plain \in {"none", "live", "gone"}
+    /\ Done([s EXCEPT !.grp = "removed", !.halt = TRUE, !.plain = IF @ = "none" THEN "none" ELSE "gone"],
+            "RemoveGroup", [x |-> 0], "ok", {}, [holes |-> Holes, names |-> DataLabels])
+
 Enabled(a) == a \in Acts
 Next ==
     /\ ~s.broken /\ ~s.halt
@@ -802,6 +814,7 @@ Next ==
                   \/ Enabled("AddBadData") /\ AddBadData
                   \/ Enabled("ReopenRemoveHole") /\ ReopenRemoveHole
                   \/ Enabled("ReopenRemoveGroup") /\ ReopenRemoveGroup
+                  \/ Enabled("RemoveGroup") /\ RemoveGroup
        \* every state reached by the last allowed action is still re-opened once (read back from the file)
        \/ TLCGet("level") = MaxLevel + 1 /\ Enabled("Reopen") /\ Reopen
 Spec == Init /\ [][Next]_vars
